@@ -515,11 +515,13 @@ func (r *reporter) histogramVec(
 		return h.histogram, nil
 	}
 
+	// n.b. The vector reads the bounds again whenever it creates the series
+	//      of another tag value set, keep a copy the caller cannot modify.
 	h := prom.NewHistogramVec(
 		prom.HistogramOpts{
 			Name:    name,
 			Help:    desc,
-			Buckets: buckets,
+			Buckets: append([]float64(nil), buckets...),
 		},
 		tagKeys,
 	)
